@@ -188,8 +188,9 @@ class Triangular(Law):
         return (self.a + self.m + self.b) / 3.0
 
     def var(self):
-        a, m, b = self.a, self.m, self.b
-        return (a * a + b * b + m * m - a * b - a * m - b * m) / 18.0
+        # shift-invariant: written with a = 0 to avoid cancellation when |a| >> b - a
+        m, b = self.m - self.a, self.b - self.a
+        return (b * b + m * m - b * m) / 18.0
 
     def kurt(self):
         return 2.4
